@@ -136,3 +136,82 @@ def render_names(root, rng, nfiles=6):
         open(fn, "w").write("\n".join(src) + "\n")
         out.append(("names-%d" % f, fn, picked))
     return out
+
+def render_special(root):
+    """hand-written invocations for situations the seeded streams do not reach; returns [(label, package dirs, [files])]"""
+    out = []
+    # (1) two different packages with the same package name in ONE invocation; the second declares identifiers equal
+    #     to names the allocator would hand out (unexported types in command packages)
+    for sub, decl in (("server", "settings"), ("worker", "worker")):
+        d = os.path.join(root, "mp", sub)
+        os.makedirs(d, exist_ok=True)
+        open(os.path.join(d, "k.go"), "w").write('''package main
+
+import "github.com/mazrean/kessoku"
+
+type settings struct{ n int }
+type %(t)s%(x)s struct{ s *settings }
+
+func newSettings() *settings { return &settings{} }
+func new%(T)s(s *settings) (*%(t)s%(x)s, error) { return &%(t)s%(x)s{s}, nil }
+
+var _ = kessoku.Inject[*%(t)s%(x)s]("init%(T)s", kessoku.Provide(newSettings), kessoku.Provide(new%(T)s))
+
+func main() {}
+''' % dict(t=decl, T=decl.capitalize(), x="" if decl == "worker" else "Srv"))
+    out.append(("multi-package-same-name", ["./mp/server/", "./mp/worker/"], ["mp/server/k.go", "mp/worker/k.go"]))
+    # (2) a file generated by ANOTHER tool declares an identifier equal to a derived variable name, and a provider
+    #     expression refers to it
+    d = os.path.join(root, "tg")
+    os.makedirs(d, exist_ok=True)
+    open(os.path.join(d, "version_string.go"), "w").write('''// Code generated by "stringer -type=Version"; DO NOT EDIT.
+
+package tg
+
+const version = "1.2"
+''')
+    open(os.path.join(d, "k.go"), "w").write('''package tg
+
+import "github.com/mazrean/kessoku"
+
+type Version struct{ major, minor int }
+type App struct {
+	v *Version
+	s string
+}
+
+func NewVersion() *Version { return &Version{1, 2} }
+func NewApp(v *Version, s string) *App { return &App{v, s} }
+
+var _ = kessoku.Inject[*App]("InitApp", kessoku.Provide(NewVersion), kessoku.Value(version), kessoku.Provide(NewApp))
+''')
+    out.append(("other-tool-generated-file", ["./tg/"], ["tg/k.go"]))
+    # (3) user identifiers equal to the emitter's hard-coded locals, *used* inside provider expressions
+    d = os.path.join(root, "hl")
+    os.makedirs(d, exist_ok=True)
+    open(os.path.join(d, "k.go"), "w").write('''package hl
+
+import (
+	"context"
+
+	"github.com/mazrean/kessoku"
+)
+
+type Eg struct{ n int }
+type Ch struct{ n int }
+type Zero struct{ n int }
+type Err struct{ n int }
+type App struct{ n int }
+
+func NewEg(ctx context.Context) (*Eg, error) { return &Eg{}, nil }
+func NewCh() (*Ch, error)                     { return &Ch{}, nil }
+func NewZero(c *Ch) (*Zero, error)            { return &Zero{}, nil }
+func NewErr(z *Zero) (*Err, error)            { return &Err{}, nil }
+func NewApp(e *Eg, c *Ch, z *Zero, r *Err) *App { return &App{} }
+
+var _ = kessoku.Inject[*App]("InitApp",
+	kessoku.Async(kessoku.Provide(NewEg)), kessoku.Async(kessoku.Provide(NewCh)), kessoku.Async(kessoku.Provide(NewZero)),
+	kessoku.Async(kessoku.Provide(NewErr)), kessoku.Provide(NewApp))
+''')
+    out.append(("types-named-like-hard-coded-locals", ["./hl/"], ["hl/k.go"]))
+    return out
